@@ -3,3 +3,4 @@ import Driver.Glyph
 import Driver.Matrix
 import Driver.Composite
 import Driver.CompRegion
+import Driver.Trap
